@@ -9,7 +9,7 @@ import subprocess
 import sys
 
 
-def fresh_eval(program: str, timeout=120):
+def fresh_eval(program: str, timeout=900):
     """program must print one line 'FRESH-RESULT <json>'. Returns (value, None) or (None, error text)."""
     r = subprocess.run([sys.executable, "-c", program], capture_output=True, text=True, timeout=timeout, env=os.environ)
     for line in r.stdout.splitlines():
